@@ -18,6 +18,7 @@
 -/
 import HL.Lemmas.Ranges
 import HL.Lemmas.Completion
+import HL.Model.CompletionPinned
 namespace HL.Props.C08
 open HL HL.Ast HL.Text HL.Ranges HL.RangeSpec HL.Lemmas.Ranges HL.Lemmas.Text
 
@@ -447,12 +448,12 @@ theorem link_covers_keyword_counterexample :
     (documentLinks Fixes.pinned doc j).map (fun x => slice doc (toN x)) = [some "include other.journal".toList] := by
   decide
 
-/-- Completion before upstream a42bf24 (`HL.Completion.editRange false` is the completion
+/-- Completion before upstream a42bf24 (`HL.Completion.Pinned.editRange false` is the completion
     builder's transcription of that code): on `account a:b` with the cursor at 0:0 the edit
     range is 8–0; on `    a:b  1    USD` with the cursor at character 11 it is 14–11. -/
 theorem completion_start_after_cursor_counterexample :
-    HL.Completion.editRange false .account "account a:b".toList 0 = some (8, 0) ∧
-    HL.Completion.editRange false .commodity "    a:b  1    USD".toList 11 = some (14, 11) ∧
+    HL.Completion.Pinned.editRange false .account "account a:b".toList 0 = some (8, 0) ∧
+    HL.Completion.Pinned.editRange false .commodity "    a:b  1    USD".toList 11 = some (14, 11) ∧
     rangeOK "account a:b".toList ⟨0, 8, 0, 0⟩ = false := by decide
 
 /-- Completion (current code): for EVERY document, every cursor that is a position of the
@@ -488,13 +489,13 @@ theorem completion_edit_rangeOK (doc : Txt) (c : Cur) (ctx : Nat)
       subst hr
       -- start ≤ cursor
       have hle0 : st ≤ k' := by
-        have hctx : ctxOf ctx = .account ∨ ctxOf ctx = .payee ∨ ctxOf ctx = .commodity := by
+        have hctx : ctxOf ctx = .account ∨ ctxOf ctx = .payee ∨ ctxOf ctx = .commodity ∨ ctxOf ctx = .tagName := by
           cases hcx : ctxOf ctx with
           | account => exact Or.inl rfl
           | payee => exact Or.inr (Or.inl rfl)
-          | commodity => exact Or.inr (Or.inr rfl)
+          | commodity => exact Or.inr (Or.inr (Or.inl rfl))
+          | tagName => exact Or.inr (Or.inr (Or.inr rfl))
           | unknown => rw [hcx] at hst0; simp [HL.Completion.editStart] at hst0
-          | tagName => rw [hcx] at hst0; simp [HL.Completion.editStart] at hst0
           | tagValue => rw [hcx] at hst0; simp [HL.Completion.editStart] at hst0
           | date => rw [hcx] at hst0; simp [HL.Completion.editStart] at hst0
         obtain ⟨s', hs', hle, _⟩ := HL.Completion.editStart_query (ctxOf ctx) line k' hkline hctx
